@@ -35,7 +35,7 @@ func (n num) String() string {
 	if n.x == nil {
 		return fmt.Sprint(n.nf)
 	}
-	if n.x.IsInt() {
+	if n.x.IsInt() && n.x.MantExp(nil) <= 130 {
 		i, _ := n.x.Int(nil)
 		return i.String()
 	}
@@ -93,10 +93,10 @@ func effOfText(text string, cfg parse.Config) eff {
 
 // verdict is what the property demands for one (effective value, target).
 type verdict struct {
-	must  string                          // fail | succeed | either | none (not asserted)
-	check func(got reflect.Value) error   // applied to the stored value when the call succeeded; nil = nothing to check
-	why   string                          // the clause the verdict comes from
-	lax   string                          // non-empty: a success/failure obligation was relaxed for this documented reason
+	must  string                        // fail | succeed | either | none (not asserted)
+	check func(got reflect.Value) error // applied to the stored value when the call succeeded; nil = nothing to check
+	why   string                        // the clause the verdict comes from
+	lax   string                        // non-empty: a success/failure obligation was relaxed for this documented reason
 }
 
 func mustFail(why string) verdict { return verdict{must: "fail", why: why} }
